@@ -67,7 +67,11 @@ def coerce_int(maybe_int: _ScalarValue) -> int:
     if isinstance(maybe_int, int):
         numeric = maybe_int
     elif isinstance(maybe_int, float):
-        numeric = int(maybe_int)
+        try:
+            numeric = int(maybe_int)
+        except (OverflowError, ValueError):
+            # +/-Infinity (e.g. JSON 1e999) and NaN.
+            raise ValueError(INVALID_INT % maybe_int)
         if numeric != maybe_int:
             raise ValueError(INVALID_INT % maybe_int)
     elif maybe_int is None:
@@ -108,6 +112,11 @@ def coerce_float(maybe_float: _ScalarValue) -> float:
 
     try:
         numeric = float(maybe_float)
+    except OverflowError:
+        # Integers too large for a double (e.g. a 400 digits JSON number).
+        raise ValueError(
+            "Float cannot represent non finite value: %s" % maybe_float
+        )
     except ValueError:
         raise ValueError(
             "Float cannot represent non numeric value: %s" % maybe_float
